@@ -82,6 +82,12 @@ def one(m):
                 if hit:
                     return m, "OK", f"{pid} fired"
             return m, "MISSED", "; ".join(f"{pid} rc={rc} " + " | ".join(l for l in out.splitlines() if l.startswith(("VIOLATION", "ANALYSIS", "  rule")))[:300] for pid, rc, out in results)
+        elif kind == "unrecognised":
+            # a rewrite outside the enumerated idioms: the check must stop with ANALYSIS-ERROR (exit 2), never pass silently
+            for pid, rc, out in results:
+                if rc == 2 and "ANALYSIS-ERROR" in out:
+                    return m, "OK", f"{pid} analysis-error (idiom not recognised)"
+            return m, "MISSED", "; ".join(f"{pid} rc={rc}" for pid, rc, out in results)
         else:
             bad = [(pid, rc, out) for pid, rc, out in results if rc != 0]
             if bad:
@@ -111,7 +117,7 @@ def main():
             if "patch.diff" in files and "meta.json" in files:
                 meta = json.load(open(os.path.join(root, "meta.json")))
                 props = meta.get("caught_by") or [meta["property"]]
-                ms.append({"id": "seed:" + os.path.relpath(root, sd), "props": props, "patch": os.path.join(root, "patch.diff"), "kind": "fire", "rule": meta.get("rule")})
+                ms.append({"id": "seed:" + os.path.relpath(root, sd), "props": props, "patch": os.path.join(root, "patch.diff"), "kind": meta.get("kind_expected", "fire" if meta.get("expected_exit", 1) == 1 else "unrecognised"), "rule": meta.get("rule")})
     if a.only:
         ms = [m for m in ms if a.only in m["props"]]
     if a.id:
